@@ -579,3 +579,79 @@ pub fn stress_uid(num_threads: usize, calls: usize, out: &mut dyn Write) {
     let _ = neg;
     emit(out, "uid", json!({"op": "randoms", "calls": randoms.len(), "distinct": randoms.iter().collect::<std::collections::HashSet<_>>().len()}));
 }
+
+/// C12: a structured family of UniqueIds (base ids and their neighbours: one bit flipped in one part, in two parts at
+/// once) - for every ordered pair within a family: ==, hash equality, the size of a set holding both, and what a DOM
+/// does when an instance carrying the first and then one carrying the second is inserted.  Judged by UidPairTrace.tla.
+pub fn uid_pairs(out: &mut dyn Write) {
+    use rbx_dom_weak::types::{UniqueId, Variant};
+    use rbx_dom_weak::{InstanceBuilder, WeakDom};
+    use std::collections::HashSet;
+    use std::hash::{Hash, Hasher};
+    std::panic::set_hook(Box::new(|_| {}));
+    let parts = |u: &UniqueId| -> Value {
+        let mut b = u.index().to_be_bytes().to_vec();
+        b.extend_from_slice(&u.time().to_be_bytes());
+        b.extend_from_slice(&u.random().to_be_bytes());
+        json!(b)
+    };
+    let hash_of = |u: &UniqueId| -> u64 {
+        let mut h = std::collections::hash_map::DefaultHasher::new();
+        u.hash(&mut h);
+        h.finish()
+    };
+    let bases: [(u32, u32, i64); 4] = [(7, 20, 1311768467463790320), (0, 0, 0), (1, 0x8000_0001, -5), (u32::MAX, u32::MAX, i64::MIN)];
+    let ibits: [u32; 3] = [0, 1, 31];
+    let rbits: [u32; 5] = [0, 1, 31, 32, 63];
+    let mut n = 0usize;
+    for (bi, base) in bases.iter().enumerate() {
+        let mut fam: Vec<(u32, u32, i64)> = vec![*base];
+        for b in ibits {
+            fam.push((base.0 ^ (1 << b), base.1, base.2));
+            fam.push((base.0, base.1 ^ (1 << b), base.2));
+        }
+        for b in rbits {
+            fam.push((base.0, base.1, base.2 ^ (1i64 << b)));
+        }
+        for b1 in ibits {
+            for b2 in ibits {
+                fam.push((base.0 ^ (1 << b1), base.1 ^ (1 << b2), base.2));
+            }
+            for b2 in rbits {
+                fam.push((base.0 ^ (1 << b1), base.1, base.2 ^ (1i64 << b2)));
+                fam.push((base.0, base.1 ^ (1 << b1), base.2 ^ (1i64 << b2)));
+            }
+        }
+        for (x, pa) in fam.iter().enumerate() {
+            for (y, pb) in fam.iter().enumerate() {
+                // every pair with the base or a one-part neighbour on the left, every seventh of the rest
+                if x > 11 && (x * 31 + y) % 7 != 0 {
+                    continue;
+                }
+                let a = UniqueId::new(pa.0, pa.1, pa.2);
+                let b = UniqueId::new(pb.0, pb.1, pb.2);
+                let mut set = HashSet::new();
+                set.insert(a);
+                set.insert(b);
+                let dom_part = std::panic::catch_unwind(std::panic::AssertUnwindSafe(|| {
+                    let mut dom = WeakDom::new(InstanceBuilder::new("DataModel"));
+                    let root = dom.root_ref();
+                    let ra = dom.insert(root, InstanceBuilder::new("Folder").with_property("UniqueId", Variant::UniqueId(a)));
+                    let rb = dom.insert(root, InstanceBuilder::new("Folder").with_property("UniqueId", Variant::UniqueId(b)));
+                    let get = |r| match dom.get_by_ref(r).unwrap().properties.get(&"UniqueId".into()) {
+                        Some(Variant::UniqueId(u)) => parts(u),
+                        _ => json!("missing"),
+                    };
+                    json!({"first": get(ra), "second": get(rb)})
+                }))
+                .unwrap_or_else(|_| json!({"first": "panic", "second": "panic"}));
+                n += 1;
+                let ev = json!({"ep": format!("uidpair:{}:{}:{}", bi, x, y), "op": "uid_pair", "a": parts(&a), "b": parts(&b),
+                                "eq": a == b, "hash_eq": hash_of(&a) == hash_of(&b), "set_len": set.len(), "dom": dom_part});
+                serde_json::to_writer(&mut *out, &ev).unwrap();
+                out.write_all(b"\n").unwrap();
+            }
+        }
+    }
+    let _ = n;
+}
